@@ -1,0 +1,339 @@
+// Copyright 2026 Anapaya Systems
+//
+// Licensed under the Apache License, Version 2.0 (the "License");
+// you may not use this file except in compliance with the License.
+// You may obtain a copy of the License at
+//
+//   http://www.apache.org/licenses/LICENSE-2.0
+//
+// Unless required by applicable law or agreed to in writing, software
+// distributed under the License is distributed on an "AS IS" BASIS,
+// WITHOUT WARRANTIES OR CONDITIONS OF ANY KIND, either express or implied.
+// See the License for the specific language governing permissions and
+// limitations under the License.
+//! Simulation seams of the path manager (cargo feature `verif-hooks`).
+//!
+//! Thin wrappers with the method names of [`arc_swap::ArcSwapOption`] and [`scc::HashIndex`] that
+//! tell an installed simulator (see [`scion_sdk_utils::verif`]) about every access, plus
+//! read-only views of otherwise private state. Without an installed simulator the wrappers just
+//! forward.
+
+use std::{
+    hash::Hash,
+    sync::{
+        Arc,
+        atomic::{AtomicBool, Ordering},
+    },
+    time::{Duration, SystemTime},
+};
+
+use scion_sdk_utils::{backoff::BackoffConfig, verif};
+use sciparse::{
+    identifier::isd_asn::IsdAsn,
+    path::{ScionPath, fingerprint::data_plane::DpPathFingerprint},
+};
+
+use crate::path::{
+    PathStrategy,
+    fetcher::traits::PathFetcher,
+    manager::{MultiPathManager, MultiPathManagerConfig},
+};
+
+/// [`arc_swap::ArcSwapOption`] with scheduling points around loads and stores.
+pub struct ArcSwapOption<T>(arc_swap::ArcSwapOption<T>);
+
+impl<T> ArcSwapOption<T> {
+    /// See [`arc_swap::ArcSwapOption::new`].
+    pub fn new(value: Option<Arc<T>>) -> Self {
+        ArcSwapOption(arc_swap::ArcSwapOption::new(value))
+    }
+
+    /// See [`arc_swap::ArcSwapAny::load`].
+    pub fn load(&self) -> arc_swap::Guard<Option<Arc<T>>> {
+        verif::sched_point("slot.load");
+        self.0.load()
+    }
+
+    /// See [`arc_swap::ArcSwapAny::load_full`].
+    pub fn load_full(&self) -> Option<Arc<T>> {
+        verif::sched_point("slot.load");
+        self.0.load_full()
+    }
+
+    /// See [`arc_swap::ArcSwapAny::store`].
+    pub fn store(&self, value: Option<Arc<T>>) {
+        verif::sched_point("slot.store");
+        self.0.store(value);
+        verif::sched_point("slot.stored");
+    }
+
+    /// See [`arc_swap::ArcSwapAny::swap`].
+    pub fn swap(&self, value: Option<Arc<T>>) -> Option<Arc<T>> {
+        verif::sched_point("slot.store");
+        let old = self.0.swap(value);
+        verif::sched_point("slot.stored");
+        old
+    }
+}
+
+/// [`scc::HashIndex`] whose blocking operations are visible to the simulator.
+///
+/// `entry_sync` keeps a bucket locked until the returned entry is dropped; another simulated task
+/// calling into the map meanwhile would block in a way the simulator cannot see. A map-level busy
+/// flag makes such a task wait at a point the simulator does see.
+pub struct HashIndex<K, V> {
+    inner: scc::HashIndex<K, V>,
+    busy: AtomicBool,
+}
+
+struct BusyGuard<'h>(&'h AtomicBool);
+
+impl Drop for BusyGuard<'_> {
+    fn drop(&mut self) {
+        self.0.store(false, Ordering::SeqCst);
+        if !std::thread::panicking()
+            && let Some(rt) = verif::current()
+        {
+            rt.lock_released("index.entry");
+        }
+    }
+}
+
+/// See [`scc::hash_index::Entry`].
+pub enum Entry<'h, K, V> {
+    /// An occupied entry.
+    Occupied(OccupiedEntry<'h, K, V>),
+    /// A vacant entry.
+    Vacant(VacantEntry<'h, K, V>),
+}
+
+/// See [`scc::hash_index::OccupiedEntry`].
+pub struct OccupiedEntry<'h, K, V> {
+    inner: scc::hash_index::OccupiedEntry<'h, K, V>,
+    _busy: Option<BusyGuard<'h>>,
+}
+
+/// See [`scc::hash_index::VacantEntry`].
+pub struct VacantEntry<'h, K, V> {
+    inner: scc::hash_index::VacantEntry<'h, K, V>,
+    busy: Option<BusyGuard<'h>>,
+}
+
+impl<K: Eq + Hash, V> OccupiedEntry<'_, K, V> {
+    /// See [`scc::hash_index::OccupiedEntry::get`].
+    pub fn get(&self) -> &V {
+        self.inner.get()
+    }
+
+    /// See [`scc::hash_index::OccupiedEntry::key`].
+    pub fn key(&self) -> &K {
+        self.inner.key()
+    }
+}
+
+impl<'h, K: Eq + Hash, V> VacantEntry<'h, K, V> {
+    /// See [`scc::hash_index::VacantEntry::insert_entry`].
+    pub fn insert_entry(self, value: V) -> OccupiedEntry<'h, K, V> {
+        OccupiedEntry {
+            inner: self.inner.insert_entry(value),
+            _busy: self.busy,
+        }
+    }
+}
+
+impl<K: Eq + Hash, V> Default for HashIndex<K, V> {
+    fn default() -> Self {
+        Self::new()
+    }
+}
+
+impl<K: Eq + Hash, V> HashIndex<K, V> {
+    /// See [`scc::HashIndex::new`].
+    pub fn new() -> Self {
+        HashIndex {
+            inner: scc::HashIndex::new(),
+            busy: AtomicBool::new(false),
+        }
+    }
+
+    /// Waits (visibly to the simulator) until no entry of this map is held.
+    fn step(&self, label: &'static str) {
+        if let Some(rt) = verif::current() {
+            loop {
+                rt.sched_point(label);
+                if !self.busy.load(Ordering::SeqCst) {
+                    return;
+                }
+                rt.lock_contended(label);
+            }
+        }
+    }
+
+    /// See [`scc::HashIndex::peek_with`].
+    pub fn peek_with<R, F: FnOnce(&K, &V) -> R>(&self, key: &K, reader: F) -> Option<R> {
+        self.step("index.peek");
+        self.inner.peek_with(key, reader)
+    }
+
+    /// See [`scc::HashIndex::contains`].
+    pub fn contains(&self, key: &K) -> bool {
+        self.step("index.contains");
+        self.inner.contains(key)
+    }
+
+    /// See [`scc::HashIndex::len`].
+    pub fn len(&self) -> usize {
+        self.step("index.len");
+        self.inner.len()
+    }
+
+    /// See [`scc::HashIndex::is_empty`].
+    pub fn is_empty(&self) -> bool {
+        self.len() == 0
+    }
+
+    /// See [`scc::HashIndex::insert_sync`].
+    pub fn insert_sync(&self, key: K, value: V) -> Result<(), (K, V)> {
+        self.step("index.insert");
+        self.inner.insert_sync(key, value)
+    }
+
+    /// See [`scc::HashIndex::remove_sync`].
+    pub fn remove_sync(&self, key: &K) -> bool {
+        self.step("index.remove");
+        let removed = self.inner.remove_sync(key);
+        verif::sched_point("index.removed");
+        removed
+    }
+
+    /// See [`scc::HashIndex::get_sync`].
+    pub fn get_sync(&self, key: &K) -> Option<OccupiedEntry<'_, K, V>> {
+        self.step("index.get");
+        let simulated = verif::current().is_some();
+        let inner = self.inner.get_sync(key)?;
+        if simulated {
+            self.busy.store(true, Ordering::SeqCst);
+        }
+        Some(OccupiedEntry {
+            inner,
+            _busy: simulated.then_some(BusyGuard(&self.busy)),
+        })
+    }
+
+    /// See [`scc::HashIndex::entry_sync`].
+    pub fn entry_sync(&self, key: K) -> Entry<'_, K, V> {
+        self.step("index.entry");
+        let simulated = verif::current().is_some();
+        if simulated {
+            self.busy.store(true, Ordering::SeqCst);
+        }
+        let busy = simulated.then_some(BusyGuard(&self.busy));
+        match self.inner.entry_sync(key) {
+            scc::hash_index::Entry::Occupied(inner) => {
+                Entry::Occupied(OccupiedEntry { inner, _busy: busy })
+            }
+            scc::hash_index::Entry::Vacant(inner) => Entry::Vacant(VacantEntry { inner, busy }),
+        }
+    }
+}
+
+/// State of one per-pair worker, published to the simulator after every maintenance or issue step.
+#[derive(Debug, Clone)]
+pub struct PathSetProbe {
+    /// Source ISD-AS.
+    pub src: IsdAsn,
+    /// Destination ISD-AS.
+    pub dst: IsdAsn,
+    /// What the worker just did.
+    pub step: &'static str,
+    /// The worker's clock reading for this step.
+    pub now: SystemTime,
+    /// Cached paths in rank order with their total score and their reliability score.
+    pub cached: Vec<(ScionPath, f32, f32)>,
+    /// Fingerprint of the active path.
+    pub active: Option<DpPathFingerprint>,
+    /// Next refetch instant.
+    pub next_refetch: SystemTime,
+    /// Next idle check instant.
+    pub next_idle_check: SystemTime,
+    /// Consecutive failed fetch attempts.
+    pub failed_attempts: u32,
+}
+
+/// All fields of a [`MultiPathManagerConfig`], several of which have no public setter.
+#[derive(Debug, Clone, Copy)]
+pub struct VerifManagerConfig {
+    /// See [`MultiPathManagerConfig`].
+    pub max_cached_paths_per_pair: usize,
+    /// See [`MultiPathManagerConfig`].
+    pub refetch_interval: Duration,
+    /// See [`MultiPathManagerConfig`].
+    pub min_refetch_delay: Duration,
+    /// See [`MultiPathManagerConfig`].
+    pub min_expiry_threshold: Duration,
+    /// See [`MultiPathManagerConfig`].
+    pub max_idle_period: Duration,
+    /// See [`MultiPathManagerConfig`].
+    pub fetch_failure_backoff: BackoffConfig,
+    /// See [`MultiPathManagerConfig`].
+    pub issue_cache_size: usize,
+    /// See [`MultiPathManagerConfig`].
+    pub issue_broadcast_size: usize,
+    /// See [`MultiPathManagerConfig`].
+    pub issue_deduplication_window: Duration,
+    /// See [`MultiPathManagerConfig`].
+    pub path_swap_score_threshold: f32,
+}
+
+impl VerifManagerConfig {
+    /// The shipped defaults.
+    pub fn shipped() -> Self {
+        let c = MultiPathManagerConfig::default();
+        VerifManagerConfig {
+            max_cached_paths_per_pair: c.max_cached_paths_per_pair,
+            refetch_interval: c.refetch_interval,
+            min_refetch_delay: c.min_refetch_delay,
+            min_expiry_threshold: c.min_expiry_threshold,
+            max_idle_period: c.max_idle_period,
+            fetch_failure_backoff: c.fetch_failure_backoff,
+            issue_cache_size: c.issue_cache_size,
+            issue_broadcast_size: c.issue_broadcast_size,
+            issue_deduplication_window: c.issue_deduplication_window,
+            path_swap_score_threshold: c.path_swap_score_threshold,
+        }
+    }
+
+    /// Builds the real configuration (validated later by [`MultiPathManager::new`]).
+    pub fn build(self) -> MultiPathManagerConfig {
+        MultiPathManagerConfig {
+            max_cached_paths_per_pair: self.max_cached_paths_per_pair,
+            refetch_interval: self.refetch_interval,
+            min_refetch_delay: self.min_refetch_delay,
+            min_expiry_threshold: self.min_expiry_threshold,
+            max_idle_period: self.max_idle_period,
+            fetch_failure_backoff: self.fetch_failure_backoff,
+            issue_cache_size: self.issue_cache_size,
+            issue_broadcast_size: self.issue_broadcast_size,
+            issue_deduplication_window: self.issue_deduplication_window,
+            path_swap_score_threshold: self.path_swap_score_threshold,
+        }
+    }
+}
+
+/// A [`PathStrategy`] with the scorers the stack installs by default.
+pub fn strategy_with_default_scorers() -> PathStrategy {
+    let mut strategy = PathStrategy::default();
+    strategy.scoring.use_default_scorers();
+    strategy
+}
+
+/// Sizes of the issue memory: (cached issues, FIFO entries).
+pub fn issue_memory_sizes<F: PathFetcher>(manager: &MultiPathManager<F>) -> (usize, usize) {
+    let guard = manager.0.issue_manager.lock().expect("lock poisoned");
+    (guard.cache.len(), guard.fifo_issues.len())
+}
+
+/// Number of (src, dst) pairs currently managed.
+pub fn managed_pairs<F: PathFetcher>(manager: &MultiPathManager<F>) -> usize {
+    manager.0.managed_paths.len()
+}
